@@ -239,8 +239,9 @@ Definition step (e : env) (s : cst) (x : ev) : cst :=
   if closed s then s else
   match x with
   | EKexInit strict_s ext_s common =>
-      (* _process_kexinit *)
-      if kex s then set_closed s
+      (* _process_kexinit: 'Key exchange already in progress' while an exchange object exists or the
+         peer's NEWKEYS is still outstanding (self._kex or self._next_recv_encryption, since 9276b6d) *)
+      if kex s || next_recv_enc s then set_closed s
       else
         let st := if session s then strict s else strict_s in
         let ex := if session s then ext_info s else ext_s in
